@@ -6,7 +6,7 @@ EXPLANATION = ("In gix_fs::Stack::make_relative_path_current: (P1) push_director
                "component unless push()'s Ok edge was taken; (P2) from the Ok edge of a push_directory no pop of the current path is reachable within the "
                "same iteration without a pop_directory; (P3) the branch entered on the Err edge pops `current` and `current_relative`, decrements "
                "valid_components, restores current_is_directory=true (the parent that remains is a directory) and calls no pop_directory; (P4) the "
-               "common-prefix pop loop pops both paths, calls pop_directory only under the current_is_directory test and then sets it. Attributes::push_directory sets its level flag only on paths that added a pattern list (pop_directory always pops one). The content "
+               "common-prefix pop loop pops both paths, calls pop_directory only under the current_is_directory test and then sets it. Attributes::push_directory sets its level flag only on paths that added a pattern list (pop_directory always pops one). On the error edge of an attributes/ignore push no pop of that state (or of the whole delegate) follows. The content "
                "of attribute/ignore state is not decided.")
 
 
